@@ -313,6 +313,7 @@ func checkC11(c *Check) {
 	type mu struct {
 		m, k, v string
 		pos     ssa.Instruction
+		fn      *ssa.Function
 	}
 	var ups []mu
 	for _, fn := range fns {
@@ -331,7 +332,7 @@ func checkC11(c *Check) {
 						}
 					}
 					// identify through the field the map was stored in
-					ups = append(ups, mu{which + "@" + fnName(fn), Sym(u.Key), Sym(u.Value), u})
+					ups = append(ups, mu{which + "@" + fnName(fn), Sym(u.Key), Sym(u.Value), u, fn})
 				}
 			}
 		})
@@ -340,7 +341,7 @@ func checkC11(c *Check) {
 	nlim := 0
 	for _, u := range ups {
 		d, known := dims[u.k]
-		inCont := strings.HasSuffix(u.m, fnName(cont))
+		inCont := strings.HasSuffix(u.m, fnName(cont)) || (u.fn != nil && isNewFunc(u.fn) && inCodeOf(cont, u.fn))
 		if !known || !inCont {
 			c.Ob("R3", "resource list write "+u.m+"["+u.k+"]", u.pos.Pos(), false, "limits/requests written outside the container builder or for an unknown resource")
 			continue
@@ -871,6 +872,14 @@ func (c *Check) netPol(np *ssa.Function) {
 // resourceListRole: "Limits" / "Requests" if the map value m (or the local it lives in) is stored into a field of
 // that name in fn; "" if not found or ambiguous.
 func resourceListRole(fn *ssa.Function, m ssa.Value) string {
+	// read straight out of the Limits / Requests field of a struct
+	if ld, ok := m.(*ssa.UnOp); ok {
+		if fa, isFA := ld.X.(*ssa.FieldAddr); isFA {
+			if f := fieldName(fa.X.Type(), fa.Field); f == "Limits" || f == "Requests" {
+				return f
+			}
+		}
+	}
 	same := func(v ssa.Value) bool {
 		if v == m {
 			return true
